@@ -8,7 +8,7 @@ AREA = "cesium"
 CHANSETS = '{{"I"}, {"I","D","V"}, {"D"}, {"D","V"}}'
 
 
-def gen_cfg(spec, T, depth, maxlen=3, maxid=8, writers=2, inv="EmitSim", chansets=CHANSETS, early=False):
+def gen_cfg(spec, T, depth, maxlen=3, maxid=8, writers=2, inv="EmitSim", chansets=CHANSETS, early=False, deletes=True):
     ws = ", ".join('"w%d"' % (i + 1) for i in range(writers))
     return """SPECIFICATION %s
 CONSTANTS
@@ -18,19 +18,32 @@ CONSTANTS
   MaxId = %d
   ChanSets = %s
   EarlyStart = %s
+  DeletesOn = %s
   Depth = %d
 INVARIANTS %s
 CHECK_DEADLOCK FALSE
-""" % (spec, T, ws, maxlen, maxid, chansets, "TRUE" if early else "FALSE", depth, inv)
+""" % (spec, T, ws, maxlen, maxid, chansets, "TRUE" if early else "FALSE", "TRUE" if deletes else "FALSE", depth, inv)
 
 
-def write_hists(res, path, keep=None, dedupe=True):
-    """Write HIST lines of a TLC run to an ndjson file. `keep(hist)` filters."""
+def write_hists(res, path, keep=None, dedupe=True, limit=None, seed=1):
+    """Write HIST lines of a TLC run to an ndjson file. `keep(hist)` filters; `limit`
+    keeps a seeded random subset of about that many (reservoir-free: two passes)."""
+    import random
+    stride_keep = None
+    if limit:
+        total = sum(1 for _ in res.tagged("HIST"))
+        if total > limit:
+            rnd = random.Random(seed)
+            stride_keep = set(rnd.sample(range(total), limit))
+    idx = -1
     n = 0
     seen = set()
     samples = []
     with open(path, "w") as f:
         for h in res.hists():
+            idx += 1
+            if stride_keep is not None and idx not in stride_keep:
+                continue
             if keep and not keep(h):
                 continue
             s = json.dumps(h, separators=(",", ":"), sort_keys=True)
@@ -66,3 +79,56 @@ def load_hist(path, i):
             if k == i:
                 return json.loads(ln)
     return None
+
+
+def mc_cfg(spec, T, writers, maxlen, maxid, props=True, chansets='{{"I"}, {"I","D","V"}, {"D"}}'):
+    ws = ", ".join('"w%d"' % (i + 1) for i in range(writers))
+    return """SPECIFICATION %s
+CONSTANTS
+  T = %d
+  Writers = {%s}
+  EarlyStart = FALSE
+  MaxLen = %d
+  MaxId = %d
+  ChanSets = %s
+INVARIANTS TypeOK SamplesInDomains DomainsDisjoint DataHasIndex NoUncommittedVisible
+%s
+CHECK_DEADLOCK FALSE
+""" % (spec, T, ws, maxlen, maxid, chansets, "PROPERTIES DeleteExact IndexGuard" if props else "")
+
+
+TAINT_SIG = "C04 delete bound inside domain whose start is not on an index sample"
+
+
+def judge(ctx, pid, path, bad, T, what):
+    """Turn harness results into verdicts. Read mismatches (and panics/hangs) are
+    verdict-bearing; an outcome-class divergence is verdict-bearing only where C04 states
+    it (an index delete that must be refused was allowed). Everything else that stops a
+    script is `diverged` (counted; exit 2 if any on an untainted history)."""
+    diverged = 0
+    for b in bad:
+        hist = load_hist(path, b["i"])
+        m = b.get("m") or {}
+        step = m.get("step", -1)
+        st = hist[step] if 0 <= step < len(hist) else {}
+        script = [{"a": x["a"], "args": x["args"], "res": x["res"]} for x in hist[: step + 1]]
+        rep = {"history": hist[: step + 1], "script": script, "conc": b.get("conc"), "mismatch": m, "T": T,
+               "cmd": "python3 tools/verif.py replay %s <this file>" % pid}
+        if b["r"] == "inconclusive":
+            raise vlib.Inconclusive("harness inconclusive: %s" % json.dumps(b)[:500])
+        if b.get("tainted"):
+            ctx.report(TAINT_SIG, "%s: %s at step %d (%s) after a %s" % (what, m.get("kind"), step, st.get("a"), b["tainted"]), rep)
+            continue
+        if b["r"] == "diverged":
+            if st.get("a") == "delete" and st.get("res") == "refused" and (st.get("args") or {}).get("must") and m.get("act") == "ok":
+                ctx.report("C04 index delete allowed while a dependant has samples in range",
+                           "index delete %s was allowed although a channel it indexes has samples in the range" % json.dumps(st.get("args")), rep)
+            else:
+                diverged += 1
+                ctx.notes.append("diverged: step %d %s %s expected %s got %s" % (step, st.get("a"), json.dumps(st.get("args")), m.get("exp"), str(m.get("act"))[:200]))
+            continue
+        kind = m.get("kind")
+        sig = "%s %s mismatch after %s" % (pid, kind, st.get("a"))
+        ctx.report(sig, "%s: after step %d (%s %s) %s: expected %s, real cesium returned %s" % (
+            what, step, st.get("a"), json.dumps(st.get("args")), m.get("note", ""), str(m.get("exp"))[:300], str(m.get("act"))[:300]), rep)
+    return diverged
